@@ -29,6 +29,8 @@ def run(check):
 
     check.run_rule('C03.R1', lambda c: rule_mask_names(c, model(), {
         'table': 'C03.R1', 'index': 'C03.R2', 'kinds': 'C03.R4', 'src': None, 'pdefault': None}))
+    from ._shared import rule_posindex
+    check.run_rule('C03.R2p', lambda c: rule_posindex(c, 'C03.R2'))
     check.run_rule('C03.R3', lambda c: rule_mask_consume(c, model(), 'C03.R3'))
     check.run_rule('C03.R5', lambda c: rule_mask_hide(c, model(), 'C03.R5', None))
     check.run_rule('C03.R5b', lambda c: rule_mask_binding(c, model(), 'C03.R5'))
